@@ -111,48 +111,6 @@ Proof.
   - pose proof (si_prims _ sinv_new n) as Hpm. rewrite Hp in Hpm. exact (Hpm _ _ E).
 Qed.
 
-(* lowering never emits a DEF *)
-Lemma set_last_res_ops is r is' : set_last_res is r = Some is' -> Forall (fun i => i_op i <> ODef) is ->
-  Forall (fun i => i_op i <> ODef) is'.
-Proof.
-  unfold set_last_res. destruct (rev is) as [|l before] eqn:E; [discriminate|]. intros H F. inversion H; subst.
-  assert (His : is = rev before ++ [l]) by (rewrite <- (rev_involutive is), E; reflexivity).
-  rewrite His in F. apply Forall_app in F. destruct F as [F1 F2]. apply Forall_app. split; [exact F1|].
-  inversion F2; subst. constructor; [cbn; assumption|constructor].
-Qed.
-
-Lemma compile_expr_no_def e : forall sc is r sc', compile_expr e sc = Ok (is, r, sc') -> Forall (fun i => i_op i <> ODef) is.
-Proof.
-  induction e as [p|c|o l IHl r0 IHr|]; intros sc is r sc' H.
-  - destruct p as [b|x|n]; [inversion H; constructor| |inversion H; constructor].
-    apply compile_atom_name in H. destruct H as (-> & _). constructor.
-  - discriminate H.
-  - apply compile_sexp_inv in H. destruct H as (is1 & lft & sc1 & is2 & rgt & sc2 & H1 & H2 & H3).
-    assert (F12 : Forall (fun i => i_op i <> ODef) (is1 ++ is2)) by (apply Forall_app; split; eauto).
-    destruct (is_valop o) eqn:Vo.
-    + apply lower_tail_valop in H3; auto. destruct H3 as (_ & -> & _). apply Forall_app. split; [exact F12|].
-      constructor; [|constructor]. cbn. destruct o; try discriminate Vo; discriminate.
-    + destruct (is_condop o) eqn:Co.
-      * apply lower_tail_condop in H3; auto. destruct H3 as (_ & -> & _). apply Forall_app. split; [exact F12|].
-        constructor; [|constructor]. cbn. destruct o; try discriminate Co; discriminate.
-      * destruct o; try discriminate Vo; try discriminate Co.
-        -- apply lower_tail_bind in H3. destruct H3 as (lft' & _ & _ & [(_ & _ & _ & Hs)|(-> & _)]).
-           ++ eapply set_last_res_ops; eauto.
-           ++ apply Forall_app. split; [exact F12|]. constructor; [discriminate|constructor].
-        -- discriminate H3.
-  - discriminate H.
-Qed.
-
-Lemma compile_flag_no_def e sc is sc' : compile_flag e sc = Ok (is, sc') -> Forall (fun i => i_op i <> ODef) is.
-Proof.
-  intros H. apply compile_flag_inv in H. destruct H as (is0 & res & fr & C0 & _ & [(b & -> & ->)|(j & t & _ & Hs)]).
-  - apply Forall_app. split; [eapply compile_expr_no_def; eauto|constructor; [discriminate|constructor]].
-  - eapply set_last_res_ops; [exact Hs|eapply compile_expr_no_def; eauto].
-Qed.
-
-Lemma opcode_def o : o <> ODef -> (opcode o =? 2) = false.
-Proof. intros H. destruct o; try reflexivity. congruence. Qed.
-
 (* distinct declared variables have distinct DEF registers *)
 Lemma def_slots_nodup l : keys_nodup l ->
   (forall x y rx ry, In (x, rx) l -> In (y, ry) l -> var_class rx = true -> slot rx = slot ry -> x = y) ->
